@@ -2,7 +2,7 @@
 
 Specification: spec/ModuleMap.tla (transcription of find_sources.crawl_up / find_sources_in_dir,
 modulefinder.compute_search_paths / _find_module / find_modules_recursive and of load_graph's
-seeding).  TLC enumerates every directory tree over a 12-path universe (three universes) x
+seeding).  TLC enumerates every directory tree over a 12-path universe (four universes) x
 options x working directory x mypy_path x target directory, checks the invariants on the model
 and prints one observation per world.  Every world is materialised in a scratch directory and
 replayed into the real create_source_list, compute_search_paths, FindModuleCache.find_module and
@@ -20,13 +20,14 @@ from __future__ import annotations
 
 import itertools
 import json
+import multiprocessing
 import os
 import random
 import shutil
 import subprocess
 import sys
 import time
-from concurrent.futures import ProcessPoolExecutor, ThreadPoolExecutor
+from concurrent.futures import ProcessPoolExecutor, ThreadPoolExecutor, as_completed
 from typing import Any
 
 from harness.common import (MachineryError, PY, REPO, SPEC, Verdict, coverage_summary, parse_args,
@@ -39,7 +40,7 @@ NWORK = min(16, os.cpu_count() or 4)
 _G: dict[str, Any] = {}
 
 
-def _init_worker(root: str) -> None:
+def _init_worker(root: str, known: list[str] | None = None) -> None:
     import mypy.build
     from mypy.modulefinder import load_stdlib_py_versions
 
@@ -50,6 +51,8 @@ def _init_worker(root: str) -> None:
     _G["data_dir"] = mypy.build.default_data_dir()
     _G["stdlib"] = load_stdlib_py_versions(None)
     _G["tree"] = None
+    _G["known"] = set(known or [])
+    _G["unknown_minimised"] = 0
     ini = os.path.join(d, "empty.ini")
     with open(ini, "w") as f:
         f.write("[mypy]\n")
@@ -297,7 +300,13 @@ def compare_world(x: dict[str, Any]) -> dict[str, Any]:
     files = sorted(x["tree"])
     a_order = [p for _, p, _ in x["A"]]
     probes = sorted(k for k, _ in x["findsP"])
-    real = observe_real(files, cfg, probes, a_order)
+    try:
+        real = observe_real(files, cfg, probes, a_order)
+    except Exception as e:   # the real code raised on a tree the specification gives a meaning to
+        import traceback
+        return {"cfg": cfg, "files": files, "drift": ["real code raised %s: %s" % (type(e).__name__, traceback.format_exc()[-700:])],
+                "flags": [], "shadow": x["shadow"], "dupD": x["dupD"], "cmp": x["cmp"], "full": x["full"], "nb": len(x["bases"]),
+                "nontrivial": False}
     drift: list[str] = []
 
     def cmp(name: str, model: Any, got: Any) -> None:
@@ -467,7 +476,7 @@ def replay_chunk(worlds: list[dict[str, Any]]) -> dict[str, Any]:
         st["orders"] = st.get("orders", 0) + len(x["finds"])
         st["finds"] = st.get("finds", 0) + sum(len(e["m"]) for e in x["finds"]) + len(x["findsP"])
         if r["drift"] and len(res["drift"]) < 20:
-            res["drift"].append({"world": {k: x[k] for k in ("tree", "ns", "epb", "cwd", "mp", "tgt")}, "drift": r["drift"][:6]})
+            res["drift"].append({"world": {k: x[k] for k in ("tree", "ns", "epb", "cwd", "mp", "tgt")}, "drift": r["drift"][:6], "emitted": x})
         st["drift"] = st.get("drift", 0) + (1 if r["drift"] else 0)
         seen_here: set[tuple[str, str | None]] = set()
         for kind, d in r["flags"]:
@@ -480,7 +489,13 @@ def replay_chunk(worlds: list[dict[str, Any]]) -> dict[str, Any]:
                 if (kind, c) in seen_here:
                     continue
                 seen_here.add((kind, c))
-                key, rep = minimise(r["files"], r["cfg"], kind, c)
+                if _G["unknown_minimised"] >= 12:
+                    # many new violations already (a broken tree): stop spending time on minimisation
+                    key, rep = "%s|not minimised" % kind, {"files": r["files"], "cfg": r["cfg"], "kind": kind, "culprit": c}
+                else:
+                    key, rep = minimise(r["files"], r["cfg"], kind, c)
+                    if key not in _G["known"] and key not in res["viol"]:
+                        _G["unknown_minimised"] += 1
                 ent = res["viol"].setdefault(key, {"n": 0, "replay": rep, "first": {"files": r["files"], "cfg": r["cfg"], "detail": d}})
                 ent["n"] += 1
         if res["sample"] is None and r["nb"] > 1 and r["cmp"]:
@@ -489,7 +504,7 @@ def replay_chunk(worlds: list[dict[str, Any]]) -> dict[str, Any]:
 
 
 # =========================================================================== end-to-end confirmation
-def program_for(files: list[str], D: list[tuple[str, str, str]]) -> dict[str, str]:
+def program_for(files: list[str], D: list[tuple[str, str, str]], with_imports: bool = True) -> dict[str, str]:
     """Contents: every file defines a class named after its own path.  Every named .py file imports
     named modules (as many as possible without creating an import cycle -- the order in which mypy
     processes a cycle legitimately depends on the order of the sources) and reveals which file it
@@ -522,7 +537,7 @@ def program_for(files: list[str], D: list[tuple[str, str, str]]) -> dict[str, st
     for i, (m, p) in enumerate(mods):
         if not p.endswith(".py"):
             continue
-        for m2, p2 in mods[:i]:
+        for m2, p2 in (mods[:i] if with_imports else []):
             targets = {p2} | set(ancestors(m2))
             if p in targets or any(reaches(t, p) for t in targets):
                 continue
@@ -646,7 +661,11 @@ def e2e_cli(job: dict[str, Any]) -> dict[str, Any]:
     real = observe_real(files, cfg)
     D = real["D"]
     # (for a known finding every file gets its own diagnostic, so that a file that is not checked shows)
-    materialise(files, program_for(files, real["A"] if job.get("expect_differs") else D))
+    # and no file imports another, so that a file is checked only if the listing names it)
+    if job.get("expect_differs"):
+        materialise(files, program_for(files, real["A"], with_imports=False))
+    else:
+        materialise(files, program_for(files, D))
     os.chdir(cwd)
     T = cfg["tgt"]
     base = [PY, "-m", "mypy", "--config-file", _G["ini"], "--no-site-packages", "--no-incremental",
@@ -691,12 +710,22 @@ def e2e_cli(job: dict[str, Any]) -> dict[str, Any]:
 
 def run_jobs(fn_name: str, jobs: list[dict[str, Any]]) -> list[dict[str, Any]]:
     fn = globals()[fn_name]
-    return [fn(j) for j in jobs]
+    out = []
+    for j in jobs:
+        try:
+            out.append(fn(j))
+        except subprocess.TimeoutExpired:
+            raise
+        except Exception as e:
+            import traceback
+            out.append({"cfg": j["cfg"], "files": sorted(j["files"]), "runs": 0, "dup": False,
+                        "problems": [("crash", "%s: %s" % (type(e).__name__, traceback.format_exc()[-800:]))]})
+    return out
 
 
 # =========================================================================== main
-QUICK_GEN = ["Gen_ModuleMap_A4.cfg", "Gen_ModuleMap_B4.cfg", "Gen_ModuleMap_C4.cfg"]
-THOROUGH_GEN = ["Gen_ModuleMap_%s_%s.cfg" % (u, s) for u in "ABC" for s in ("off", "on", "epb")]
+QUICK_GEN = ["Gen_ModuleMap_%s4.cfg" % u for u in "ABCD"]
+THOROUGH_GEN = ["Gen_ModuleMap_%s_%s.cfg" % (u, s) for u in "ABCD" for s in ("off", "on", "epb")]
 
 
 def main(argv: list[str]) -> int:
@@ -713,72 +742,85 @@ def main(argv: list[str]) -> int:
         return replay_one(v, root, replay)
 
     gens = QUICK_GEN if tier == "quick" else THOROUGH_GEN
-    per = max(2, NWORK // (5 if tier == "quick" else 4))
+    per = max(2, NWORK // 5)
     cov: dict[str, Any] = {}
     states = transitions = 0
+    n_in = 400 if tier == "quick" else 4000
+    n_cli = 13 if tier == "quick" else 160
 
     # ---- 1. TLC: exhaustive check of the invariants + emission of every world (one run does both);
-    #         the coverage run, the specification-level mutant and the candidate-repair run alongside
+    #         the coverage run, the specification-level mutant and the candidate-repair run alongside.
+    # ---- 2. every emitted world is replayed into the real code as soon as its TLC run has finished
     def run_tlc(job: tuple[str, bool]) -> Any:
         cfg, with_cov = job
         return cfg, tlc("MC_ModuleMap", cfg, workers=per, coverage=with_cov, timeout=3000, heap="6g")
 
     side = [("MC_ModuleMap_A2.cfg", True), ("Mut_ModuleMap_AsIs_NoExemption.cfg", False), ("Rep_ModuleMap_InitOnly.cfg", False)]
-    worlds: list[dict[str, Any]] = []
-    t_tlc = time.time()
-    with ThreadPoolExecutor(6 if tier == "quick" else 4) as ex:
-        results = list(ex.map(run_tlc, [(g, False) for g in gens] + side))
-    for cfg, r in results:
-        if r.error:
-            raise MachineryError("TLC %s: %s\n%s" % (cfg, r.error, r.out[-1500:]))
-        if cfg.startswith("Mut_"):
-            if r.violated != "DirVersusFiles":
-                raise MachineryError("specification of the pinned rule not rejected by DirVersusFiles: %s" % r.violated)
-            cov["spec_mutants_rejected"] = {"pinned find_sources_in_dir rule without the shadow exemption": r.violated}
-            continue
-        if r.violated:
-            v.violation("model:%s:%s" % (cfg, r.violated), {"cfg": cfg, "trace": r.trace_text[-6000:]},
-                        "specification invariant %s violated in %s" % (r.violated, cfg))
-            continue
-        states += r.distinct
-        transitions += r.generated
-        ent: dict[str, Any] = {"states": r.distinct, "transitions": r.generated, "wall_s": round(r.wall, 1)}
-        if cfg.startswith("MC_"):
-            ent.update(coverage_summary(r))
-            if r.never_fired():
-                raise MachineryError("actions never fired in %s: %s" % (cfg, r.never_fired()))
-        if cfg.startswith("Gen_"):
-            ws = r.json_lines("WORLD")
-            ent["worlds_emitted"] = len(ws)
-            if not ws:
-                raise MachineryError("no worlds emitted by " + cfg)
-            worlds += ws
-        cov[cfg] = ent
-    t_tlc = time.time() - t_tlc
-    if len(worlds) < 1000:
-        raise MachineryError("too few worlds emitted: %d" % len(worlds))
-
-    # ---- 2. replay of every world into the real code
-    # worlds of the same tree stay together (the tree is materialised once); the seed permutes the trees
-    by_tree: dict[str, list[dict[str, Any]]] = {}
-    for x in worlds:
-        by_tree.setdefault(" ".join(sorted(x["tree"])), []).append(x)
-    tree_keys = sorted(by_tree)
-    rnd.shuffle(tree_keys)
-    chunks = []
-    cur: list[dict[str, Any]] = []
-    for tk in tree_keys:
-        cur += by_tree[tk]
-        if len(cur) >= 150:
-            chunks.append(cur)
-            cur = []
-    if cur:
-        chunks.append(cur)
-    t_rep = time.time()
     agg: dict[str, Any] = {"n": 0, "drift": [], "viol": {}, "exempt": {}, "stats": {}, "errors": []}
     samples: list[Any] = []
-    with ProcessPoolExecutor(NWORK, initializer=_init_worker, initargs=(root,)) as pool:
-        for res in pool.map(replay_chunk, chunks):
+    n_worlds = 0
+    model_violation = False
+    cands: list[str] = []     # candidate worlds for the end-to-end step
+    t_all = time.time()
+    ctx = multiprocessing.get_context("forkserver")
+    with ProcessPoolExecutor(NWORK, mp_context=ctx, initializer=_init_worker, initargs=(root, sorted(v.known))) as pool:
+        pending = []
+        with ThreadPoolExecutor(7 if tier == "quick" else 5) as ex:
+            futs = [ex.submit(run_tlc, j) for j in [(g, False) for g in gens] + side]
+            for fut in as_completed(futs):
+                cfg, r = fut.result()
+                if r.error:
+                    raise MachineryError("TLC %s: %s\n%s" % (cfg, r.error, r.out[-1500:]))
+                if cfg.startswith("Mut_"):
+                    if r.violated != "DirVersusFiles":
+                        raise MachineryError("specification of the pinned rule not rejected by DirVersusFiles: %s" % r.violated)
+                    cov["spec_mutants_rejected"] = {"pinned find_sources_in_dir rule without the shadow exemption": r.violated}
+                    continue
+                if r.violated:
+                    v.violation("model:%s:%s" % (cfg, r.violated), {"cfg": cfg, "trace": r.trace_text[-6000:]},
+                                "specification invariant %s violated in %s" % (r.violated, cfg))
+                    model_violation = True
+                    continue
+                states += r.distinct
+                transitions += r.generated
+                ent: dict[str, Any] = {"states": r.distinct, "transitions": r.generated, "wall_s": round(r.wall, 1)}
+                if cfg.startswith("MC_"):
+                    ent.update(coverage_summary(r))
+                    if r.never_fired():
+                        raise MachineryError("actions never fired in %s: %s" % (cfg, r.never_fired()))
+                if cfg.startswith("Gen_"):
+                    ws = r.json_lines("WORLD")
+                    r.out = ""
+                    r.printed = []
+                    ent["worlds_emitted"] = len(ws)
+                    if not ws:
+                        raise MachineryError("no worlds emitted by " + cfg)
+                    n_worlds += len(ws)
+                    # worlds of the same tree stay together (the tree is materialised once); the seed permutes the trees
+                    by_tree: dict[str, list[dict[str, Any]]] = {}
+                    for x in ws:
+                        by_tree.setdefault(" ".join(sorted(x["tree"])), []).append(x)
+                        if not x["shadow"] and x["nonest"] and ((x["cmp"] and x["full"] and len(x["D"]) >= 2) or x["dupD"] or len(x["bases"]) >= 2):
+                            cands.append(json.dumps({"cfg": {k: x[k] for k in ("ns", "epb", "cwd", "mp", "tgt")},
+                                                     "files": sorted(x["tree"])}, sort_keys=True))
+                    del ws
+                    tree_keys = sorted(by_tree)
+                    random.Random("%d:%s" % (seed, cfg)).shuffle(tree_keys)
+                    cur: list[dict[str, Any]] = []
+                    for tk in tree_keys:
+                        cur += by_tree[tk]
+                        if len(cur) >= 150:
+                            pending.append(pool.submit(replay_chunk, cur))
+                            cur = []
+                    if cur:
+                        pending.append(pool.submit(replay_chunk, cur))
+                    del by_tree
+                cov[cfg] = ent
+        t_tlc = time.time() - t_all
+        if n_worlds < 1000 and not model_violation:
+            raise MachineryError("too few worlds emitted: %d" % n_worlds)
+        for fut in pending:
+            res = fut.result()
             agg["n"] += res["n"]
             agg["drift"] += res["drift"]
             agg["errors"] += res["errors"]
@@ -786,42 +828,38 @@ def main(argv: list[str]) -> int:
                 agg["exempt"][k] = agg["exempt"].get(k, 0) + n
             for k, n in res["stats"].items():
                 agg["stats"][k] = agg["stats"].get(k, 0) + n
-            for key, ent in res["viol"].items():
-                a = agg["viol"].setdefault(key, ent)
-                if a is not ent:
-                    a["n"] += ent["n"]
+            for key, ent2 in res["viol"].items():
+                a = agg["viol"].setdefault(key, ent2)
+                if a is not ent2:
+                    a["n"] += ent2["n"]
             if res["sample"] is not None and len(samples) < 3:
                 samples.append(res["sample"])
-
-        t_rep = time.time() - t_rep
+        t_rep = time.time() - t_all - t_tlc
         if agg["errors"]:
             raise MachineryError("replay raised: " + agg["errors"][0])
-        if agg["n"] != len(worlds):
-            raise MachineryError("replay incomplete: %d of %d worlds" % (agg["n"], len(worlds)))
+        if agg["n"] != n_worlds:
+            raise MachineryError("replay incomplete: %d of %d worlds" % (agg["n"], n_worlds))
 
         # binding failures: the real code departs from the transcribed rule
+        agg["drift"].sort(key=lambda d: (len(d["world"]["tree"]), json.dumps(d["world"], sort_keys=True)))
         for dft in agg["drift"][:10]:
             wkey = json.dumps(dft["world"], sort_keys=True)
             v.violation("conformance:" + wkey, dft, "real code departs from ModuleMap.tla: " + "; ".join(dft["drift"])[:800])
         # property failures on the real results
-        for key, ent in sorted(agg["viol"].items()):
-            v.violation(key, ent, "%s fails on real results (%d worlds); minimal input %s under %s; first seen: %s"
-                        % (key.split("|")[0], ent["n"], ent["replay"]["files"], ent["replay"]["cfg"], json.dumps(ent["first"])[:600]))
+        for key, ent2 in sorted(agg["viol"].items()):
+            v.violation(key, ent2, "%s fails on real results (%d worlds); minimal input %s under %s; first seen: %s"
+                        % (key.split("|")[0], ent2["n"], ent2["replay"]["files"], ent2["replay"]["cfg"], json.dumps(ent2["first"])[:600]))
 
         # ---- 3. end-to-end confirmation on samples (in-process builds, then the real command line)
-        cand = [x for x in worlds if not x["shadow"] and x["nonest"]]
-        rich = [x for x in cand if (x["cmp"] and x["full"] and len(x["D"]) >= 2) or x["dupD"] or len(x["bases"]) >= 2]
-        rnd.shuffle(rich)
-        n_in = 400 if tier == "quick" else 4000
-        n_cli = 13 if tier == "quick" else 160
-        jobs = [{"cfg": {k: x[k] for k in ("ns", "epb", "cwd", "mp", "tgt")}, "files": x["tree"]} for x in rich[:n_in]]
+        cands.sort()
+        rnd.shuffle(cands)
+        jobs = [json.loads(c) for c in cands[:n_in]]
         t_e2e = time.time()
         e2e: list[dict[str, Any]] = []
-        parts = [jobs[i::NWORK] for i in range(NWORK)]
-        for outl in pool.map(run_jobs, ["e2e_inprocess"] * NWORK, parts):
+        for outl in pool.map(run_jobs, ["e2e_inprocess"] * NWORK, [jobs[i::NWORK] for i in range(NWORK)]):
             e2e += outl
         # known findings are confirmed through the command line as well: DIR and FILES must differ
-        known_jobs = [dict(ent["replay"], expect_differs=True) for key, ent in sorted(agg["viol"].items()) if key in v.known]
+        known_jobs = [dict(ent2["replay"], expect_differs=True) for key, ent2 in sorted(agg["viol"].items()) if key in v.known]
         cli_jobs = jobs[:n_cli] + known_jobs
         cli: list[dict[str, Any]] = []
         for outl in pool.map(run_jobs, ["e2e_cli"] * NWORK, [cli_jobs[i::NWORK] for i in range(NWORK)]):
@@ -830,7 +868,7 @@ def main(argv: list[str]) -> int:
 
     if len(e2e) != len(jobs) or len(cli) != len(cli_jobs):
         raise MachineryError("end-to-end step incomplete")
-    if not any(o.get("reveals") for o in e2e):
+    if not any(o.get("reveals") for o in e2e) and not v.violations:
         raise MachineryError("end-to-end programs produced no reveal_type output: vacuous")
     for o in e2e + cli:
         for kind, what in o["problems"]:
@@ -846,7 +884,7 @@ def main(argv: list[str]) -> int:
         "traces_validated_against_impl": agg["n"],
         "evaluations": agg["n"] + len(e2e) + len(cli),
         "distinct_nontrivial": st.get("nontrivial", 0),
-        "rule": "every world TLC generates for the tier's configurations (all trees of <= %d files over three 12-path "
+        "rule": "every world TLC generates for the tier's configurations (all trees of <= %d files over four 12-path "
                 "universes x 3 option settings x 3 working directories x 2 mypy_path settings x 2 target directories) is "
                 "materialised and replayed; non-trivial = more than one base directory, or a stub file, or a duplicate "
                 "module, or a comparable -p package" % (4 if tier == "quick" else 8),
@@ -860,6 +898,7 @@ def main(argv: list[str]) -> int:
         "worlds_with_shadowed_module_layout": st.get("shadow", 0),
         "statements_not_judged_in_shadowed_layout": agg["exempt"],
         "property_failures_on_real_results": {k: e["n"] for k, e in sorted(agg["viol"].items())},
+        "e2e_candidate_worlds": len(cands),
         "e2e_inprocess_builds_compared": len(e2e),
         "e2e_inprocess_with_duplicate_error": sum(1 for o in e2e if o["dup"]),
         "e2e_inprocess_with_package_run": sum(1 for o in e2e if "pkg" in o),
@@ -891,6 +930,11 @@ def replay_one(v: Verdict, root: str, path: str) -> int:
         print(json.dumps(o, indent=1))
         for kind, what in o["problems"]:
             v.violation(data["key"], rep, what)
+    elif "emitted" in rep:
+        r = compare_world(rep["emitted"])
+        print(json.dumps({"world": rep["world"], "drift": r["drift"]}, indent=1))
+        if r["drift"]:
+            v.violation(data["key"], rep, "reproduced: " + "; ".join(r["drift"])[:800])
     elif "files" in rep:
         real = observe_real(sorted(rep["files"]), rep["cfg"])
         print(json.dumps({"files": rep["files"], "cfg": rep["cfg"], "D": real["D"], "A": real["A"], "P": real["P"],
